@@ -5,9 +5,9 @@ CONSTANTS
   Senders = {"s1", "s2"}
   NInd = 1
   MaxQ = 1
-  MaxOps = 3
+  MaxOps = 2
   InitCbs <- Cbs1
-  AddCbs = {2}
+  AddCbs = {}
   FailCleanup = "full"
   CloseOnCertFail = TRUE
   ClearRobust = TRUE
